@@ -203,7 +203,12 @@ def batch_complete(ctx, P, fam, wl, rule):
                 cs = list(Q.canon_cond(P, be[0], be[1][y], x)) if be is not None and y in be[1] else []
                 done = any(c[0] in ("variant", "variant_in") and T.has_call(c[1], "::next") and
                            ((c[2] == "None" or (isinstance(c[2], tuple) and "None" in c[2] and "Some" not in c[2])) == c[3]) for c in cs)
-                if not done:
+                # .. or when nobody listens to the results any more (the reason the service loop itself may end for)
+                closed = any((c[0] == "variant" and T.has_call(c[1], "Sender::<T>::send") and ((c[2] == "Err") == c[3])) or
+                             (c[0] == "bool" and T.has_call(c[1], "Sender::<T>::send") and
+                              ((T.has_call(c[1], "::is_err") and c[2] is True) or (T.has_call(c[1], "::is_ok") and c[2] is False)))
+                             for c in cs + list(Q.canon_conds(P, T.dom_conds(wl, S, x))))
+                if not done and not closed:
                     early.append((x, [c[0] + ":" + (T.pp(c[1])[:50] if isinstance(c[1], tuple) else str(c[1])) for c in cs][-2:]))
     if m:
         ctx.check(not early, rule, fam + ":worker_loop:batch-complete", "%d ways from a batch loop back to the service loop, each when the batch is exhausted" % m,
@@ -257,6 +262,31 @@ def exit_conditions(ctx, P, fam, wl, wp, rule):
                     conds += Q.canon_cond(P, be[0], be[1][y], x)
             n += 1
             why = allowed(conds)
+            if why is None and y is not None and wl.blocks[x]["t"]["k"] == "switch" and wl.blocks[x]["t"].get("ty") == "bool":
+                # the exit is taken on a flag (`let alive = ..; if !alive { return }`): the reasons are those under which the flag got
+                # the value that leaves
+                from ..engine import guards as GV
+                t_ = wl.blocks[x]["t"]
+                pl = t_["discr"].get("m") or t_["discr"].get("c")
+                leave = 0 if any(a[0] == 0 and a[1] == y for a in t_["arms"]) else 1
+                neg = False
+                for _ in range(4):
+                    ds = [st for (_b, _j, st) in wl.iter_stmts() if st["k"] == "assign" and st["p"]["l"] == pl["l"] and not st["p"]["pr"]]
+                    if len(ds) == 1 and ds[0]["r"]["k"] == "unop" and ds[0]["r"].get("op") == "Not":
+                        q_ = ds[0]["r"]["o"].get("m") or ds[0]["r"]["o"].get("c")
+                        if q_ is None:
+                            break
+                        pl, neg = q_, not neg
+                        continue
+                    break
+                want = bool(leave) != neg
+                asg = GV.assignments_of(P, wl, S, pl) if not pl["pr"] else []
+                srcs = [(v, cs_) for (v, cs_, _w) in asg if T.strip(v)[0] == "const" and T.strip(v)[1] is want]
+                others = [v for (v, cs_, _w) in asg if not (T.strip(v)[0] == "const" and isinstance(T.strip(v)[1], bool))]
+                if srcs and not others:
+                    whys = [allowed(list(cs_)) for (_v, cs_) in srcs]
+                    if all(whys):
+                        why = whys[0]
             if why is None:
                 bad.append((x, [c[0] + ":" + (T.pp(c[1])[:50] if isinstance(c[1], tuple) else str(c[1])) for c in conds][-3:]))
     ctx.check(not bad, rule, fam + ":worker_loop:exits", "%d ways out of the service loop, each under shutdown / disconnect / closed result channel" % n,
